@@ -16,6 +16,8 @@ for d in sorted(glob.glob('/verif/seeded/*')):
         if mm: res += ' (%s)' % mm.group(1)
     elif later:
         res = '**missed at first**; ' + later
+    elif m.get('not_detected_note'):
+        res = '**not detected** — ' + m['not_detected_note']
     else:
         res = '**missed**'
     summ = (m.get('summary') or '').replace('|', '/').replace('\n', ' ')
